@@ -261,6 +261,11 @@ def check_reader(rep, rid, hr, fr):
                 terms = e["terms"] or []
                 want_conv = "none" if width == sz else ("fpext" if width < sz else "fptrunc")
                 src_ok = e["src"][0] == 'wr' and e["src"][1] == b["reads"][j].n and e["src"][3] == 0 and e["src"][4] == width
+                loopreads = {c.n for c in fr["loop"]}
+                peeks = [l for l in e["lits"] if io.state_ok_epoch(l, 0) is None and any(a[1] in loopreads for a in io.wr_atoms(l))]
+                if peeks:
+                    why = "width %d: whether element component %d is stored depends on the value just read (%s): some stored bit patterns would be refused or treated differently" % (width, j, ir.show(peeks[0])[:80])
+                    break
                 if e["const"] != j * sz or len(terms) != 1 or terms[0][0] != M * sz or terms[0][1][0] != 'iv' or e["size"] != sz:
                     why = "width %d: scalar %d is stored at %s, expected buffer + i*%d + %d" % (width, j, ir.show(e["store"].off)[:60], M * sz, j * sz)
                 elif not src_ok:
